@@ -16,7 +16,7 @@
   branch fix-C15).  Reference: IgrisModel/C15/Spec.lean (a zipper with a
   capacity, a list of remembered lines, a key decoder).
 -/
-import IgrisModel.C15.Lemmas
+import IgrisModel.C15.Lemmas3
 namespace Igris.C15
 open Igris.Proto
 
@@ -68,5 +68,51 @@ theorem sline_returns (cap : Nat) (hcap : 1 ≤ cap) (ops : List SOp) (o : SOp) 
   obtain ⟨_, _, _, hr⟩ := apply_ok _ h o
   rw [hr, hz, hc, init_toZip]
   rfl
+
+/-! ### the terminal automaton (vterm_automate / igris::vtermxx), any key sequence
+
+`cxx = false` is `vterm_automate_newdata` (vterm.c), `cxx = true` is
+`igris::vtermxx::newdata` (returns right after the execute callback; the line
+is reset and the prompt printed at the start of the next call).  History depth
+`1 ≤ depth ≤ 255` (`uint8_t history_size`). -/
+
+/-- Bounds and memory safety of the whole terminal, for EVERY byte sequence,
+capacity ≥ 1, history depth 1..255, both variants, any prompt:
+`0 ≤ cursor ≤ length < capacity`; the history indices stay inside the ring
+(`headhist < depth`, `curhist ≤ depth`); and no store / memmove / memcpy /
+memset / strlen of the edit buffer or of history_space left its object
+(`faulted = false`: every access of the model is index-checked against the
+exactly sized buffer, including the terminator written by `sline_getline` for
+the execute callback and the `memcpy + '\0'` of the history push). -/
+theorem vterm_safe (cap depth : Nat) (hcap : 1 ≤ cap) (hd : 1 ≤ depth) (hd2 : depth ≤ 255) (cxx : Bool)
+    (prompt : List Byte) (keys : List Byte) :
+    let v := (Vterm.init cap depth cxx prompt).run keys
+    v.rl.faulted = false ∧ v.rl.line.cursor ≤ v.rl.line.len ∧ v.rl.line.len < cap ∧
+    v.rl.line.buf.length = cap ∧ v.rl.hist.length = cap * depth ∧ v.rl.headhist < depth ∧ v.rl.curhist ≤ depth := by
+  exact safe_of_sim cap depth _ _ (run_sim cap depth hd hd2 _ _ keys (init_sim cap depth hcap hd hd2 cxx prompt))
+
+/-- THE LINE HANDED TO EXECUTE.  For every byte sequence typed at the terminal
+(any bytes: printable, BS, ESC-[ arrows, ESC-[-3-~, CR/LF in any pairing,
+Ctrl-C, unknown escapes, anything else), the sequence of callback events —
+every `execute(line)` with its line, every SIGINT, in order — is exactly the
+sequence the reference editor produces. -/
+theorem readline_line (cap depth : Nat) (hcap : 1 ≤ cap) (hd : 1 ≤ depth) (hd2 : depth ≤ 255) (cxx : Bool)
+    (prompt : List Byte) (keys : List Byte) :
+    (Vterm.init cap depth cxx prompt).events keys = (Ref.init depth).events cap keys :=
+  events_sim cap depth hd hd2 _ _ keys (init_sim cap depth hcap hd hd2 cxx prompt)
+
+/-- ... and between the events the edit buffer and the cursor are the reference
+editor's: after every key sequence the line the next call works on (`nrl`: the
+buffer itself in state 2, the freshly reset buffer while the reset after Enter
+is still pending) holds the reference line with the cursor at the reference
+position, is browsing the same history entry and is in the same place of an
+escape sequence. -/
+theorem vterm_refines_editor (cap depth : Nat) (hcap : 1 ≤ cap) (hd : 1 ≤ depth) (hd2 : depth ≤ 255) (cxx : Bool)
+    (prompt : List Byte) (keys : List Byte) :
+    let v := (Vterm.init cap depth cxx prompt).run keys
+    let r := (Ref.init depth).run cap keys
+    v.nrl.line.text = r.z.line ∧ v.nrl.line.cursor = r.z.left.length ∧ v.nrl.curhist = r.browse ∧
+    v.nrl.state = r.esc := by
+  exact editor_of_sim cap depth _ _ (run_sim cap depth hd hd2 _ _ keys (init_sim cap depth hcap hd hd2 cxx prompt))
 
 end Igris.C15
